@@ -32,7 +32,8 @@ Inductive tfield :=
 | FNsap                                    (* NSAP: "0x" + hex, dots ignored on input *)
 | FIntC (maxv : Z)                         (* tok.get_int(); the range is checked by the constructor *)
 | FSigTime                                 (* RRSIG/SIG times: YYYYMMDDHHMMSS *)
-| FEui (n : nat).                          (* EUI48 / EUI64: n octets as hex pairs joined by "-" *)
+| FEui (n : nat)                           (* EUI48 / EUI64: n octets as hex pairs joined by "-" *)
+| FFmtHex.                                 (* NID nodeid / L64 locator64: xxxx:xxxx:xxxx:xxxx, kept as text *)
 
 Inductive tval :=
 | VInt (z : Z)
@@ -640,6 +641,31 @@ Definition eui_from_text (n : nat) (t : list Z) : res (list Z) :=
     | _ => Lib eSyntax
     end.
 
+(* dns.rdtypes.util.parse_formatted_hex(formatted, 4, 4, ":") as a check (NID and L64 keep the text itself
+   and only validate it): 19 characters, four groups of hexadecimal digits (fix 18da675: digits only, not
+   everything int(.., 16) accepts) followed by ":" except after the last one *)
+Definition is_hexdigit (c : Z) : bool :=
+  ((48 <=? c) && (c <=? 57)) || ((97 <=? c) && (c <=? 102)) || ((65 <=? c) && (c <=? 70)).
+
+Fixpoint pfh_loop (n : nat) (t : list Z) : bool :=
+  match n with
+  | O => true
+  | S n' =>
+      let chunk := firstn 4 t in
+      if is_nil chunk || negb (forallb is_hexdigit chunk) then false
+      else
+        let t1 := skipn 4 t in
+        match t1 with
+        | [] => pfh_loop n' []
+        | c :: t2 => if c =? 58 then pfh_loop n' t2 else false
+        end
+  end.
+
+Definition fmthex_ok (t : list Z) : bool := Nat.eqb (length t) 19 && pfh_loop 4 t.
+
+(* the text the constructors build from 8 octets: _hexify(value, 4, ":") *)
+Definition fmthex_of_bytes (b : list Z) : list Z := wordbreak (hexlify b) 4 [58].
+
 (* NSAP.from_text *)
 Definition nsap_from_text (t : list Z) : res (list Z) :=
   if negb (starts_with [48; 120] t) then Lib eSyntax
@@ -674,6 +700,7 @@ Definition print_field (st : style) (f : tfield) (v : tval) : res (list Z) :=
   | FIntC _, VInt z => Ok (dec z)
   | FSigTime, VInt z => Ok (posixtime_to_sigtime z)
   | FEui _, VBytes b => Ok (eui_to_text b)
+  | FFmtHex, VBytes t => Ok t
   | _, _ => Internal eBadCase
   end.
 
@@ -735,6 +762,7 @@ Definition parse_field (c : pctx) (f : tfield) (st : tstate) : res (tval * tstat
   | FIntC _ => do vs <- get_int st 10; Ok (VInt (fst vs), snd vs)
   | FSigTime => do ts <- get_string st 0; do v <- sigtime_to_posixtime (fst ts); Ok (VInt v, snd ts)
   | FEui n => do ts <- get_string st 0; do b <- eui_from_text n (fst ts); Ok (VBytes b, snd ts)
+  | FFmtHex => do ts <- get_identifier st; Ok (VBytes (fst ts), snd ts)
   | FBitmap =>
       do ts <- get_remaining st 0;
       do types <- map_res bitmap_token_type (fst ts);
@@ -765,6 +793,7 @@ Definition ctor_field (f : tfield) (v : tval) : res tval :=
   | FIntC maxv, VInt z => if (z <? 0) || (z >? maxv) then Internal iValueError else Ok v
   | FSigTime, VInt z => if (z <? 0) || (z >? 4294967295) then Internal iValueError else Ok v
   | FEui n, VBytes b => if negb (Nat.eqb (length b) n) then Lib TokM.eFormError else Ok v
+  | FFmtHex, VBytes t => if fmthex_ok t then Ok v else Internal iValueError
   | FAlg, VBytes t => do z <- alg_from_text t; Ok (VInt z)
   | FTag, VBytes b =>
       if (zlen b >? 255) || is_nil b || negb (forallb is_alnum b) then Internal iValueError else Ok v
@@ -839,6 +868,7 @@ Definition schema_of (rdtype : Z) : option (list tfield) :=
   else if rdtype =? 44 then Some [u8; u8; FHexRest]                                (* SSHFP *)
   else if rdtype =? 49 then Some [FB64Rest true]                                   (* DHCID *)
   else if rdtype =? 61 then Some [FB64Rest false]                                  (* OPENPGPKEY *)
+  else if (rdtype =? 104) || (rdtype =? 106) then Some [u16; FFmtHex]               (* NID L64 *)
   else if rdtype =? 108 then Some [FEui 6]                                         (* EUI48 *)
   else if rdtype =? 109 then Some [FEui 8]                                         (* EUI64 *)
   else if (rdtype =? 16) || (rdtype =? 99) || (rdtype =? 258) || (rdtype =? 56)
@@ -918,6 +948,7 @@ Fixpoint vals_of_obs (fs : list tfield) (os : list obs) : option (list tval) :=
           | FIntC _, I z => Some (VInt z :: r)
           | FSigTime, I z => Some (VInt z :: r)
           | FEui _, B b => Some (VBytes b :: r)
+          | FFmtHex, B b => Some (VBytes b :: r)
           | FAlg, I z => Some (VInt z :: r)
           | FBitmap, L l => match windows_of_obs l with Some w => Some (VWindows w :: r) | None => None end
           | FName, L l => match name_of_obs l with Some n => Some (VName n :: r) | None => None end
